@@ -237,6 +237,18 @@ pub fn gen_case(rng: &mut Rng, large: bool, cheap_comp: bool) -> CCase {
         (cfg, len.min(200_000), class.to_string())
     };
     let comp = gen::gen_comp(rng, cheap_comp || large);
+    // The top levels cost milliseconds per call whatever the input size (table set-up):
+    // keep the number of chunks small for them, or one case burns minutes of CPU.
+    let expensive = matches!(comp, Comp::Zstd(l) if l >= 13) || matches!(comp, Comp::Lzma(l) if l >= 6) || matches!(comp, Comp::Brotli(l) if l >= 10);
+    let src_len = if expensive && !large {
+        let typical = match cfg.algo {
+            Algo::Fixed => cfg.max,
+            _ => ((1usize << (cfg.bits + 1)).min(cfg.max)).max(cfg.min).max(1),
+        };
+        src_len.min(typical * 60 + 17)
+    } else {
+        src_len
+    };
     let hash_len = *rng.pick(&[4usize, 5, 8, 16, 20, 32, 63, 64]);
     let mut spec = CompressSpec::new(cfg, comp, hash_len);
     spec.buffered = *rng.pick(&[None, Some(1), Some(2), Some(3), Some(8), Some(64)]);
